@@ -17,6 +17,17 @@ PAYLOAD = 1020
 FRESH_OVERRIDE = {}
 
 
+def skolems(model):
+    """values of all skolem constants (names sk_*) of a counterexample, whatever their declared width"""
+    out = {"sk_i": 0, "sk_q": 0, "sk_j": 0, "sk_k": 0}
+    for d in model.decls():
+        if d.arity() == 0 and d.name().startswith("sk_"):
+            v = model[d]
+            if z3.is_bv_value(v):
+                out[d.name()] = v.as_long()
+    return out
+
+
 NARROW = {"on": True}
 
 
@@ -503,7 +514,7 @@ def writer_extract(model, s, extra=None):
         stream += mbytes(model, lambda k, pg=pg: s.content.fn(U64(pg * PAGE) + k), PAYLOAD)
     pending = mbytes(model, s.wbuf.fn, offset)
     pre = dict(npages=npages, P=P, offset=offset, stream=bytes(stream), pending=pending,
-               sk={n: mval(model, z3.BitVec(n, 64)) for n in ("sk_i", "sk_q", "sk_j")})
+               sk=skolems(model))
     if extra:
         pre.update(extra(model, s))
     return pre
@@ -715,7 +726,7 @@ class ReaderReplay:
         st = o["st"]
         npages = mval(model, st["npages"])
         pre = dict(npages=npages, offset=mval(model, st["offset"]), cached=(mval(model, st["cached"]) if st["cached"] is not None else -1),
-                   dev=seal_device(I, model, st["content"].fn, npages), sk={n: mval(model, z3.BitVec(n, 64)) for n in ("sk_i", "sk_q", "sk_j")})
+                   dev=seal_device(I, model, st["content"].fn, npages), sk=skolems(model))
         dev = o["dev"]
         pre["fault_at"] = mval(model, dev.fault_at) if dev.fault_at is not None else -1
         if pre["fault_at"] > 10 ** 6:
